@@ -28,6 +28,7 @@ struct LeafRec {
   bool connected = false, started = false, completed = false, destroyed = false, stop_seen = false;
   long t_started = -1, t_completed = -1, t_completed_end = -1, t_stop_seen = -1; int chan = dk::NONE;   // t_completed: completion call begins; t_completed_end: it has returned
   void* op = nullptr; void (*complete)(void*, int) = nullptr;
+  bool pay = false, pay_throw = false; int pay_at = 2;   // the leaf delivers a Pay object (v2 spawn_future only); its first move / copy (the store into the future's shared state) throws
 };
 struct ItemRec {
   int kind = 0;          // 0 nest+start (v2) / attach+start (v1), 1 spawn_detached / detached_spawn, 2 spawn_future / spawn
@@ -42,13 +43,32 @@ struct World {
   std::vector<int> pending;    // started, not yet completed leaves (ids)
   bool spawners_done = false;
   sr::AllocLedger ledger;
+  long pay_live = 0, pay_made = 0;
 };
 World* g_w;
+
+// a value type whose move / copy constructor can throw: generation 0 is the object the leaf creates, every move or copy adds one, and
+// the constructor of generation throw_at throws (1 = the store into the future's shared state).  A magic word tells a constructed object
+// from raw storage: destroying or reading something that was never constructed is reported.
+struct Pay {
+  long v; int gen; int throw_at; unsigned magic;
+  Pay(long vv, int ta) noexcept : v(vv), gen(0), throw_at(ta), magic(0x50415921u) { g_w->pay_live++; g_w->pay_made++; }
+  Pay(const Pay& o) : v(o.v), gen(o.gen + 1), throw_at(o.throw_at), magic(0x50415921u) {
+    if (o.magic != 0x50415921u) vk::ctx().fail("C02", "payload_read_unconstructed", "a payload was copied / moved from storage that holds no constructed object");
+    if (gen == throw_at) throw sr::LeafFailure{(int)(v - 1000), 9};
+    g_w->pay_live++; g_w->pay_made++;
+  }
+  Pay& operator=(const Pay&) = delete;
+  ~Pay() {
+    if (magic != 0x50415921u) vk::ctx().fail("C02", "payload_destroyed_unconstructed", "a payload destructor ran on storage that holds no constructed object (magic %x)", magic);
+    else { magic = 0xdeadu; g_w->pay_live--; }
+  }
+};
 
 // ---- leaf sender completed by the completer thread
 template <class V> struct LeafSender {
   int id;
-  template <template <class...> class Var, template <class...> class Tup> using value_types = std::conditional_t<std::is_void_v<V>, Var<Tup<>>, Var<Tup<long>>>;
+  template <template <class...> class Var, template <class...> class Tup> using value_types = std::conditional_t<std::is_void_v<V>, Var<Tup<>>, Var<Tup<V>>>;
   template <template <class...> class Var> using error_types = Var<std::exception_ptr>;
   static constexpr bool sends_done = true;
   template <class R> struct Op {
@@ -97,7 +117,10 @@ template <class V> struct LeafSender {
       vk::ctx().tr("#%ld leaf %d completes with %s", L.t_completed, id, dk::chan_name(chan));
       int i = id;
       LeafRec* rec = &L;   // (*this may be destroyed by the completion)
-      if (chan == dk::VALUE) { if constexpr (std::is_void_v<V>) unifex::set_value(std::move(r)); else unifex::set_value(std::move(r), (long)(1000 + i)); }
+      if (chan == dk::VALUE) { if constexpr (std::is_void_v<V>) unifex::set_value(std::move(r)); else if constexpr (std::is_same_v<V, Pay>) { int at = rec->pay_throw ? rec->pay_at : -1;
+        // (a receiver may take the value by value - v2 nest does: the move into its parameter happens in this call and may throw; a sender
+        // whose set_value call throws delivers the exception through set_error)
+        try { unifex::set_value(std::move(r), Pay{1000 + i, at}); } catch (...) { unifex::set_error(std::move(r), std::current_exception()); } } else unifex::set_value(std::move(r), (long)(1000 + i)); }
       else if (chan == dk::ERROR) unifex::set_error(std::move(r), std::make_exception_ptr(sr::LeafFailure{i, 0}));
       else unifex::set_done(std::move(r));
       rec->t_completed_end = dk::tick();
@@ -112,6 +135,7 @@ struct Rcv {
   void fin(int c, long p) noexcept { (*signals)++; *chan = c; if (payload) *payload = p; *t_done = dk::tick(); detsched::step(); }
   void set_value() && noexcept { fin(dk::VALUE, -1); }
   void set_value(long v) && noexcept { fin(dk::VALUE, v); }
+  void set_value(const Pay& p) && noexcept { if (p.magic != 0x50415921u) vk::ctx().fail("C09", "future_value_garbage", "the future delivered a payload that was never constructed"); fin(dk::VALUE, p.v); }
   template <class E> void set_error(E&& e) && noexcept { fin(dk::ERROR, sr::error_code(e)); }
   void set_done() && noexcept { fin(dk::DONE, -1); }
   friend inplace_stop_token tag_invoke(tag_t<get_stop_token>, const Rcv& r) noexcept { return r.src ? r.src->get_token() : inplace_stop_token{}; }
@@ -154,6 +178,13 @@ Script decode(vk::Choice& c) {
   bool any_sender_join = false; for (auto& j : s.joins) if (j.kind != 2) any_sender_join = true;
   if (!any_sender_join) s.joins[0].kind = 0;   // the scope has to be joined before it is destroyed
   s.completer_order = (int)c.upto(2); s.completer_yields = (int)c.upto(4);
+  // v2 futures of a Pay value (a type whose move can throw), derived from the hash of the choices made so far so that recorded cases keep
+  // their meaning: in every second case each v2 spawn_future item delivers a Pay, and its store into the shared state throws for some
+  if (s.variant == 2 && vk::ctx().argi("legacy", 0) == 0 && vk::ctx().arg("legacy-decode") != "1" && c.h % 2 == 0) {
+    uint64_t h = c.h / 2;
+    for (size_t i = 0; i < s.items.size(); ++i, h = h * 6364136223846793005ull + 1442695040888963407ull) if (s.items[i].kind == 2) { s.leaves[i].pay = true; s.leaves[i].pay_throw = ((h >> 33) % 2) == 0; s.leaves[i].pay_at = 1 + (int)((h >> 40) % 4 != 0); }
+    c.mix(h | 1);
+  }
   return s;
 }
 
@@ -202,8 +233,7 @@ void run_script(const Script& sc, bool check, bool& nt8, bool& nt9) {
           it.t_call_end = dk::tick();
         } else {
           cx.tr("#%ld S%d: item #%d spawn_future (%d)", it.t_call_begin, t, id, it.future_use);
-          auto mkf = [&] { if constexpr (V2) return spawn_future(LeafSender<long>{id}, scope, sr::CountingAlloc<std::byte>(&W.ledger)); else return scope.spawn(LeafSender<long>{id}); };
-          auto fut = mkf();
+          auto use = [&](auto fut) {
           it.t_call_end = dk::tick();
           // (for a dropped future the moment the drop BEGINS is recorded: a sound lower bound for "consumed")
           if (it.future_use == 3) { it.t_consumed = dk::tick(); { auto dropped = std::move(fut); (void)dropped; } it.t_drop_end = dk::tick(); }
@@ -220,6 +250,11 @@ void run_script(const Script& sc, bool check, bool& nt8, bool& nt9) {
             it.t_consumed = it.t_done;   // the future is consumed when its receiver is completed
             box.reset();
           }
+          };
+          if constexpr (V2) {
+            if (W.leaves[(size_t)id].pay) use(spawn_future(LeafSender<Pay>{id}, scope, sr::CountingAlloc<std::byte>(&W.ledger)));
+            else use(spawn_future(LeafSender<long>{id}, scope, sr::CountingAlloc<std::byte>(&W.ledger)));
+          } else use(scope.spawn(LeafSender<long>{id}));
           if (it.t_consumed < 0) it.t_consumed = dk::tick();
           cx.tr("#%ld S%d: future #%d consumed", it.t_consumed, t, id);
         }
@@ -327,9 +362,11 @@ void run_script(const Script& sc, bool check, bool& nt8, bool& nt9) {
         else {
           bool cancelled = it.t_fut_stop >= 0 || (t_stop_begin >= 0 && t_stop_begin < it.t_done);   // own stop request, or the scope's (the future is nested in the scope)
           bool result_ready_at_await = L.completed && L.t_completed_end >= 0 && L.t_completed_end < it.t_fut_start;   // the operation's completion call had returned
+          const int lchan = (L.chan == dk::VALUE && L.pay_throw) ? dk::ERROR : L.chan;   // a result whose storing throws is an error (spawn_future catches and stores the exception)
+          if (L.pay_throw && L.chan == dk::VALUE && it.chan == dk::VALUE) cx.fail(P9, "future_value_after_throwing_store", "future #%zu: storing the operation's value threw, yet the future completed with a value (%ld)", i, it.payload);
           if (it.chan == dk::VALUE && (L.chan != dk::VALUE || it.payload != 1000 + (long)i)) cx.fail(P9, "future_value", "future #%zu completed with value %ld, its operation with %s (payload %ld)", i, it.payload, dk::chan_name(L.chan), 1000 + (long)i);
-          if (it.chan == dk::ERROR && L.chan != dk::ERROR) cx.fail(P9, "future_error", "future #%zu completed with an error, its operation with %s", i, dk::chan_name(L.chan));
-          if (it.chan == dk::DONE && L.chan != dk::DONE && !cancelled) cx.fail(P9, "future_done_without_cause", "future #%zu completed with done although its operation completed with %s and the future was not cancelled", i, dk::chan_name(L.chan));
+          if (it.chan == dk::ERROR && lchan != dk::ERROR) cx.fail(P9, "future_error", "future #%zu completed with an error, its operation with %s", i, dk::chan_name(L.chan));
+          if (it.chan == dk::DONE && lchan != dk::DONE && !cancelled) cx.fail(P9, "future_done_without_cause", "future #%zu completed with done although its operation completed with %s and the future was not cancelled", i, dk::chan_name(L.chan));
           // (v1 futures are nested with attach(), whose stop callback may win against a completion that happens at the same
           // time; the rule is asserted only when no scope-level stop request overlaps the await)
           bool scope_stop_overlaps = false;
@@ -337,7 +374,7 @@ void run_script(const Script& sc, bool check, bool& nt8, bool& nt9) {
           // ... and the spawned operation of a v1 scope is attach(leaf): a scope-level stop request whose call overlaps the leaf's completion may win
           // inside attach and turn the operation's result into done, whatever the leaf delivered
           for (auto& j : W.joins) if (j.kind >= 1 && j.t_begin >= 0 && L.t_completed >= 0 && j.t_begin < L.t_completed_end && (j.t_start_end < 0 || j.t_start_end > L.t_completed)) scope_stop_overlaps = true;
-          if (result_ready_at_await && !scope_stop_overlaps && it.chan != L.chan) cx.fail(P9, "ready_result_not_delivered", "future #%zu: the result (%s) was already available when the future was awaited, but it completed with %s", i, dk::chan_name(L.chan), dk::chan_name(it.chan));
+          if (result_ready_at_await && !scope_stop_overlaps && it.chan != lchan) cx.fail(P9, "ready_result_not_delivered", "future #%zu: the result (%s) was already available when the future was awaited, but it completed with %s", i, dk::chan_name(L.chan), dk::chan_name(it.chan));
           bool scope_stop_races = t_stop_begin >= 0 && t_stop_begin < L.t_completed;
           if (!scope_stop_races && it.t_fut_stop >= 0 && L.completed && L.t_completed > it.t_done && L.t_started < it.t_fut_stop && !L.stop_seen && it.chan == dk::DONE) cx.fail(P9, "cancel_not_forwarded", "future #%zu was cancelled and completed with done but never requested stop on its operation", i);
           if (cancelled && it.t_fut_start >= 0 && !result_ready_at_await) future_race = true;
@@ -349,6 +386,8 @@ void run_script(const Script& sc, bool check, bool& nt8, bool& nt9) {
       }
     }
   }
+  if (W.pay_live != 0) cx.fail(P9, "future_value_leak", "%ld of the %ld value objects created for futures were never destroyed (or destroyed twice)", W.pay_live, W.pay_made);
+  { bool thr = false; for (size_t i = 0; i < W.leaves.size(); ++i) if (W.leaves[i].pay_throw && W.leaves[i].chan == dk::VALUE) thr = true; if (thr) cx.label("future-store-throws"); }
   if (W.ledger.allocs != W.ledger.deallocs) cx.fail(P9, "shared_state_leak", "spawn allocator: %ld allocations, %ld deallocations", W.ledger.allocs, W.ledger.deallocs);
   nt8 = close_races_admission; nt9 = future_race;
   if (close_races_admission) cx.label("close-races-admission");
